@@ -66,7 +66,29 @@ class Objective:
         return self.sign * v if v != 0.0 else 0.0 * self.sign + 0.0  # avoid -0.0
 
 
-def make_objective(sc: dict, sign: float | None = None) -> Objective:
+class Remapped:
+    """objective whose value at a finite set of exact points is replaced (metamorphic 'what if generation g had
+    been ranked differently' runs); everywhere else it is the wrapped objective"""
+
+    def __init__(self, inner, points, values):
+        self.inner = inner
+        self.table = {np.asarray(p, dtype=float).tobytes(): float(v) for p, v in zip(points, values)}
+        self.sign = getattr(inner, "sign", 1.0)
+
+    def __call__(self, x) -> float:
+        v = self.table.get(np.asarray(x, dtype=float).tobytes())
+        return self.inner(x) if v is None else v
+
+
+def make_objective(sc: dict, sign: float | None = None):
+    o = _make_objective(sc, sign)
+    r = sc.get("remap")
+    if r:
+        return Remapped(o, r["points"], r["values"])
+    return o
+
+
+def _make_objective(sc: dict, sign: float | None = None) -> Objective:
     o = sc["objective"]
     box = np.array(sc["box"], dtype=float)
     s = (-1.0 if sc["maximize"] else 1.0) if sign is None else sign
@@ -283,6 +305,11 @@ def sprouts(draw, box, nlevels, prof):
                     dfs.append({"kind": name, "factor": draw(st.sampled_from([0.0, 0.0, 0.5] if sprouty else [0.0, 0.5, 1.0, 3.0])), "norm_ord": draw(st.sampled_from([1, 2, "inf"])), "check_only_active": draw(S_BOOL)})
                 else:
                     dfs.append({"kind": name, "limit": draw(st.integers(1, 3))})
+        if prof.get("force_far") and not any(f["kind"] in ("FarEnough", "NBC_FarEnough") for f in dfs):
+            if gk in ("NBC", "NBCLocal") and draw(S_BOOL):
+                dfs.insert(0, {"kind": "NBC_FarEnough", "factor": draw(st.sampled_from([0.5, 1.0, 3.0])), "norm_ord": draw(st.sampled_from([1, 2, "inf"])), "check_only_active": draw(S_BOOL)})
+            else:
+                dfs.insert(0, {"kind": "FarEnough", "min_distance_frac": draw(st.sampled_from([0.01, 0.1, 0.3])), "norm_ord": draw(st.sampled_from([1, 2, "inf"]))})
         s["deme_filters"] = dfs
         tfs = []
         for name in draw(st.permutations(["LevelLimit", "SkipSameSprout"])):
@@ -325,6 +352,9 @@ def scenarios(draw, prof: dict | None = None):
     sc["options"] = {"random_seed": draw(S_SEED), "hibernation": (draw(S_BOOL) if hp is None else (draw(st.integers(0, 9)) < hp * 10))}
     sc["cutoff"] = draw(st.integers(1, max(2, 6 * approx)))
     sc["precision_eps"] = draw(st.sampled_from([1e-9, 1e-3, 0.05, 0.5]))
+    if prof.get("observe_intermittently"):
+        sc["observe_every"] = draw(st.sampled_from([1, 1, 2, 3]))
+        sc["observe_offset"] = draw(st.integers(0, 2))
     if prof.get("extra") is not None:
         sc["extra"] = draw(prof["extra"])
     return sc
